@@ -212,6 +212,9 @@ def build(case, seed, root):
             files["apisrc/detail.md"] = "title: Detail\n\nDetail\n"
             files["apisrc/raw.dat"] = "raw"
             files["proj/pages/apilink"] = {"symlink": "../../apisrc"}
+            # a page asset that is a symlink (absolute target) to a bystander file and is named like the output of
+            # the sibling page z.md: the copy in the output must be a private one (seeded change C19-r7-1)
+            files["proj/pages/sub/z.html"] = {"symlink": root + "/precious/a.txt"}
         if case.get("copy_subdir"):
             opts["copy_subdir"] = ["assets", "nonexistent_subdir"]
     if case.get("media") == "ok":
